@@ -392,13 +392,51 @@ def shrink(world, ops, fails):
     return ops
 
 
+def directed_worlds():
+    """Deterministic histories in which registrations happen *between* lookups of the same tensor type: two or three
+    backends of one already imported framework accept the same tensor class, with every combination of priorities
+    (lower / equal / higher than the backend the earlier lookup chose), registered eagerly or through
+    `register_on_import` of the imported module; the lookup is repeated after each registration.  All of them are
+    disciplined (a lookup only mentions types of imported modules), so the pure specification applies."""
+    out = []
+    prios = [-1, 0, 5]
+    for pa in prios:
+        for pb in prios:
+            for pc in (None, 0, 5):
+                for lazy in (False, True):
+                    w = World.__new__(World)
+                    w.rng = None
+                    w.modules = [f"{PREFIX}0"]
+                    cls = type("T4", (), {})
+                    w.type_objs = {0: 1, 1: 2.5, 2: np.float32(1.0), 3: np.zeros((2,)), 4: cls(), 5: type("Unknown", (), {})()}
+                    w.fw_types = {w.modules[0]: [4]}
+                    w.unknown = 5
+                    w.specs = []
+                    for k, pr in enumerate([pa, pb] + ([pc] if pc is not None else [])):
+                        w.specs.append(dict(uid=k + 1, name=f"{w.modules[0]}.b{k}", module=w.modules[0], accepts=[4], priority=pr,
+                                            eager=not lazy, failing=False))
+                    w.by_uid = {sp["uid"]: sp for sp in w.specs}
+                    ops = [{"op": "import", "m": w.modules[0]}]
+                    for sp in w.specs:
+                        ops.append({"op": "register_on_import" if lazy else "register", "uid": sp["uid"]})
+                        ops.append({"op": "get", "arg": {"t": "none"}, "tys": [4]})
+                        ops.append({"op": "get", "arg": {"t": "none"}, "tys": [4, 0]})
+                    out.append((w, ops))
+    return out
+
+
 def search(ctx, n_hist, length):
     """Failing-input search on the real code: disciplined histories vs. the pure specification."""
     rng = ctx.rng
     found = 0
-    for _ in range(n_hist):
-        world = World(rng, disciplined=True)
-        ops = gen_ops(world, rng, length, disciplined=True)
+    directed = directed_worlds()
+    for k in range(len(directed) + n_hist):
+        if k < len(directed):
+            world, ops = directed[k]
+            ctx.count("oracle_histories_directed")
+        else:
+            world = World(rng, disciplined=True)
+            ops = gen_ops(world, rng, length, disciplined=True)
         ctx.count("oracle_histories")
         bad = oracle_check(world, ops)
         if bad is not None:
